@@ -50,6 +50,11 @@ MCCrits2 == {
     <<">=", Txt(<<"a","b","c">>)>>, <<"", Txt(<<"?","*">>)>>, <<"", Num(4)>>,
     <<"<>", Txt(<<"a",".","c">>)>> }
 
+\* quick tier: a smaller set of second criteria
+MCCrits2Q == { <<"<>", Num(4)>>, <<">", Num(0)>>, <<"", Txt(<<"a","*">>)>>,
+               <<"<>", Txt(<<"*","c">>)>>, <<"<>", Txt(<<>>)>>,
+               <<">=", Txt(<<"a","b","c">>)>> }
+
 \* quick, exhaustive: every (cell, criterion) pair, every (cell, criterion,
 \* second criterion) triple
 MCMaxCells == 1
